@@ -79,6 +79,7 @@ func raceGroups(c *Ctx) []raceGroup {
 		{"cache-pairs:peerversion,peerversion;inherited,inherited;snapshot,renew", p()},
 		{"cache-invalidate-wins", p()},
 		{"cache-dump-writers", 4}, {"cache-dump-writers", 1},
+		{"cache-torn", 4},
 		{"hs-shared", 4}, {"hs-shared", p()},
 		{"hs-det", 2},
 		{"stream-dir", 4}, {"stream-dir", p()},
@@ -321,6 +322,8 @@ func raceWorker(c *Ctx, group string) error {
 			wlInvalidateWins(c, out)
 		case "cache-dump-writers":
 			wlDumpWriters(c, out)
+		case "cache-torn":
+			wlCacheTorn(c, out)
 		case "hs-shared":
 			wlHsShared(c, out)
 		case "hs-det":
